@@ -78,3 +78,33 @@ impl Terminal for RecTerm {
         &self.caps
     }
 }
+
+
+/// `ViewCache` for JSON `ref` views whose entries CHANGE between calls: every `get` of a uid
+/// returns the next of three structurally different views (a leaf, a container around a tagged
+/// leaf, a two-child flex).  A frame resolves a reference once, while laying it out, and must
+/// render that very view; an application may update its cache at any other moment.
+pub struct FlipCache {
+    calls: std::sync::atomic::AtomicUsize,
+}
+
+impl FlipCache {
+    pub fn new() -> Self {
+        Self { calls: std::sync::atomic::AtomicUsize::new(0) }
+    }
+}
+
+impl surf_n_term::view::ViewCache for FlipCache {
+    fn get(&self, uid: i64) -> Option<surf_n_term::view::ArcView<'static>> {
+        use surf_n_term::view::{Axis, Container, Flex, Tag, Text};
+        if uid < 0 {
+            return None;
+        }
+        let n = self.calls.fetch_add(1, std::sync::atomic::Ordering::SeqCst);
+        Some(match n % 3 {
+            0 => std::sync::Arc::new(Text::from("ref")),
+            1 => std::sync::Arc::new(Container::new(Tag::new(7u8, Text::from("boxed")))),
+            _ => std::sync::Arc::new(Flex::new(Axis::Horizontal).add_child(Text::from("a")).add_child(Tag::new(9u8, Text::from("b")))),
+        })
+    }
+}
